@@ -1013,6 +1013,9 @@ def elem_template(d, gen_id, mode="full"):
     D = [x.replace("TPS", tps) for x in D]
     if data_g:
         D = [re.sub(rf"\b{n}<{re.escape(tps)}>", f"{n}<{data_g}{tps}>", x) for x in D]
+    if not sel:
+        # no attribute is selected: the emitted code has no item loop at all, only the container-level post transform remains
+        D = [x for x in D if f".and_then(fix_{n})" in x or f".map(map_{n})" in x]
     o = [text]
     w = o.append
     sel_cond = " || ".join(f"attr_name(a) == {lit(x)}@" for x in sel) or "false"
@@ -1083,8 +1086,8 @@ def elem_template(d, gen_id, mode="full"):
         if sel or isinstance(fwd, list):
             w("    //@ match_str 0")
         w("    //@ replace R13b opt: __err.into() ==> crate::darling::Error::from_syn(__err)")
-        for x in D:
-            w(x)
+    for x in D:
+        w(x)
     w("    //@ replace R4v opt: vec![] ==> Vec::new()")
     if d["trait"] == "FromVariant" and "discriminant" in d["magic"]:
         w("    //@ replace R11c: __variant.discriminant.as_ref().map($$) ==> crate::discriminant_of(__variant)")
